@@ -3,7 +3,7 @@ from ..core import rng_for, rand_digits, M64, ndig
 from ..arith import cmd_divall, cmd_bb, cmd_sf, cmd_srem, UTYPES, ITYPES, STYPES, scalar_extremes
 
 B = 1 << 64
-THOROUGH_SEEDS = 5   # the thorough tier repeats its staged workload over this many derived seeds
+THOROUGH_SEEDS = 3   # the thorough tier repeats its staged workload over this many derived seeds
 RULE = ('(a) sweep of divisor length x dividend length x every normalisation shift 0..63 of the divisor top digit; '
         '(b) constructed inputs that force the rare branches of the long-division loop (add-back, top remainder digit '
         '== divisor top digit, 1-2 refinement iterations), confirmed reached by probes; (c) a<b, a=b, exact multiples, '
